@@ -217,6 +217,11 @@ def constSCol (v : KVal) (n : Nat) : SCol :=
   | .int w x => .int w (List.replicate n (some x))
   | .str s => .str (List.replicate n (some s))
 
+/-- A scalar function of a non-NULL value, NULL-strict. -/
+def liftOpt {α γ} (f : α → KOut γ) : Option α → KOut (Option γ)
+  | some v => (f v).map some
+  | none => .ok none
+
 def specCast (t : Ty) : SCol → KOut SCol
   | .null n => .ok (SCol.nulls t n)
   | .bool xs =>
@@ -229,30 +234,30 @@ def specCast (t : Ty) : SCol → KOut SCol
     match t with
     | .bool => .ok (.bool (xs.map (Option.map fun x => x != 0)))
     | .int w' =>
-      (rows1 (fun x => match x with
-        | some v => if w'.fits v then KOut.ok (some v) else KOut.err
-        | none => KOut.ok none) xs).map (.int w')
+      if w == w' then .ok (.int w xs)
+      else if w.rank ≤ w'.rank then .ok (.int w' xs)
+      else (rows1 (liftOpt fun x => if w'.fits x then KOut.ok x else KOut.err) xs).map (.int w')
     | .str => .ok (.str (xs.map (Option.map fun x => toString x)))
     | .null => .err
   | .str xs =>
     match t with
     | .str => .ok (.str xs)
     | .int w =>
-      (rows1 (fun x => match x with
-        | some s => match parseIntStr s with
-          | some v => if w.fits v then KOut.ok (some v) else KOut.err
-          | none => KOut.err
-        | none => KOut.ok none) xs).map (.int w)
+      (rows1 (liftOpt fun s => match parseIntStr s with
+          | some x => if w.fits x then KOut.ok x else KOut.err
+          | none => KOut.err) xs).map (.int w)
     | .bool =>
-      (rows1 (fun x => match x with
-        | some s => if s == "true" then KOut.ok (some true)
-            else if s == "false" then KOut.ok (some false) else KOut.err
-        | none => KOut.ok none) xs).map .bool
+      (rows1 (liftOpt fun s => if s == "true" then KOut.ok true
+          else if s == "false" then KOut.ok false else KOut.err) xs).map .bool
     | .null => .err
 
 def specSelRows {α} : List (Option Bool) → List (Option α) → List (Option α) → List (Option α)
   | c :: cs, a :: as, b :: bs => specSelect c a b :: specSelRows cs as bs
   | _, _, _ => []
+
+/-- Row-wise CASE over three columns; columns of different lengths are not a relation. -/
+def specSelM {α} (cs : List (Option Bool)) (xs ys : List (Option α)) : KOut (List (Option α)) :=
+  if xs.length ≠ ys.length ∨ cs.length ≠ xs.length then .panic else .ok (specSelRows cs xs ys)
 
 /-- View of a column as a boolean column: a NULL-typed column is an all-NULL boolean one. -/
 def SCol.asBool : SCol → Option (List (Option Bool))
@@ -344,9 +349,9 @@ def specEval (chunk : List SCol) (n : Nat) : KExpr → KOut SCol
           match cc.asBool with
           | some cs =>
             match ct, ce with
-            | .int wa xs, .int wb ys => if wa == wb then .ok (.int wa (specSelRows cs xs ys)) else .err
-            | .bool xs, .bool ys => .ok (.bool (specSelRows cs xs ys))
-            | .str xs, .str ys => .ok (.str (specSelRows cs xs ys))
+            | .int wa xs, .int wb ys => if wa == wb then (specSelM cs xs ys).map (.int wa) else .err
+            | .bool xs, .bool ys => (specSelM cs xs ys).map .bool
+            | .str xs, .str ys => (specSelM cs xs ys).map .str
             | _, _ => .err
           | none => .err
         | r => r
